@@ -409,6 +409,38 @@ def parse_lines_for(shapes, r, per_shape=None):
     return lines
 
 
+def _camel_combo_memos():
+    """the pre-checks of the parser under every spelling of the path that leads to the checked place: jsonpb accepts the proto
+    name and the lowerCamelCase name of every field, so a check that looks a field up by one spelling only can be bypassed"""
+    import itertools
+    import json as _j
+    from gen import U as _U
+    rec = _U[0]
+    out = []
+    names = [("pre_actions", "preActions"), ("fees_info", "feesInfo"), ("basis_points", "basisPoints"), ("protocol_id", "protocolId")]
+    fwd = {"protocol_id": "PROTOCOL_INTERNAL", "attributes": {"@type": INT_URL, "recipient": _U[1]}}
+    features = {
+        "both": [{"recipient": rec, "basis_points": {"value": 100}, "amount": {"value": "7"}}],
+        "both-second": [{"recipient": rec, "amount": {"value": "3"}}, {"recipient": rec, "amount": {"value": "7"}, "basis_points": {"value": 100}}],
+        "null-fee": [{"recipient": rec, "basis_points": {"value": 100}}, None],
+        "plain": [{"recipient": rec, "basis_points": {"value": 100}}],
+    }
+    for fname, infos in features.items():
+        doc = {"orbiter": {"pre_actions": [{"id": "ACTION_FEE", "attributes": {"@type": FEE_URL, "fees_info": infos}}], "forwarding": fwd}}
+        txt = _j.dumps(doc, separators=(",", ":"))
+        for k in range(0, len(names) + 1):
+            for sub in itertools.combinations(names, k):
+                t = txt
+                for (a, b) in sub:
+                    t = t.replace("\"" + a + "\"", "\"" + b + "\"")
+                out.append(t)
+    # null action under both spellings
+    for a in ("pre_actions", "preActions"):
+        out.append(_j.dumps({"orbiter": {a: [None], "forwarding": fwd}}, separators=(",", ":")))
+        out.append(_j.dumps({"orbiter": {a: [{"id": "ACTION_FEE", "attributes": {"@type": FEE_URL, "fees_info": []}}, None], "forwarding": fwd}}, separators=(",", ":")))
+    return sorted(set(out))
+
+
 EXTRA_MEMOS = [
     "", " ", "{", "}", "null", "true", "1", "\"orbiter\"", "[]", "{}", "{\"orbiter\":1}", "{\"orbiter\":\"x\"}", "{\"orbiter\":[]}", "{\"orbiter\":true}",
     "{\"orbiter\":{}}", "{\"orbiter\":{\"forwarding\":{}}}", "{\"orbiter\":{\"forwarding\":{\"protocol_id\":2}}}", "{\"orbiter\":{\"pre_actions\":[null]}}",
@@ -440,6 +472,8 @@ EXTRA_MEMOS = [
     "{\"orbiter\":{\"forwarding\":{\"protocol_id\":\"PROTOCOL_HYPERLANE\",\"attributes\":{\"@type\":\"" + HYP_URL + "\",\"max_fee\":null}}}}",
     "{\"orbiter\":{\"forwarding\":{\"protocol_id\":\"PROTOCOL_HYPERLANE\",\"attributes\":{\"@type\":\"" + HYP_URL + "\",\"max_fee\":{\"amount\":\"1_000\"}}}}}",
 ]
+
+EXTRA_MEMOS += _camel_combo_memos()
 
 
 def random_bytes_memos(r, n):
